@@ -320,6 +320,21 @@ func c08Ep(mode string) string {
 		store.VerifSvcEndpointUpdate("svc", []*service.Endpoint{ep(2, service.Endpoint_BACKUP)}, nil)
 	case "noaddr":
 		store.VerifSvcEndpointUpdate("svc", []*service.Endpoint{{Type: service.Endpoint_MAIN}, ep(2, service.Endpoint_MAIN)}, nil)
+	case "down":
+		// endpoint 2 is announced in state DOWN ("When state is DOWN, this host will not be selected for load balancing")
+		e2 := ep(2, service.Endpoint_MAIN)
+		e2.State = service.Endpoint_DOWN
+		store.VerifSvcEndpointUpdate("svc", []*service.Endpoint{e2}, nil)
+		consume()
+		var us []string
+		for _, p := range ctl.GetAllProcs() {
+			for _, h := range p.(*recProc).hosts.Healthy() {
+				port, _ := strconv.Atoi(h.Addr[strings.LastIndex(h.Addr, ":")+1:])
+				us = append(us, strconv.Itoa(port-1000))
+			}
+		}
+		sort.Strings(us)
+		return "usable=" + strings.Join(us, ",")
 	default:
 		return "bad-op"
 	}
